@@ -121,6 +121,7 @@ Dump == PrintT(<<"@@J", ToJson([case |-> [ball |-> c.ball, mid |-> c.mid, top |-
 (* imported, and aliases.  [id, name bound, object it is bound to]                                          *)
 StdCatalogue == {
     [id |-> "import_os_path",      bind |-> "os",          obj |-> "mod:os"],
+    [id |-> "import_os_path_sep",  bind |-> "os",          obj |-> "mod:os"],                \* import os.path, but only os.sep is used
     [id |-> "import_conc_futures", bind |-> "concurrent",  obj |-> "mod:concurrent"],        \* concurrent.futures must stay imported
     [id |-> "import_xml_minidom",  bind |-> "xml",         obj |-> "mod:xml"],               \* xml.dom.minidom likewise
     [id |-> "import_xml_etree",    bind |-> "xml",         obj |-> "mod:xml"],               \* same name, same object, another sub-module
